@@ -559,6 +559,14 @@ impl Property for C02 {
         "C02"
     }
 
+    fn claims_termination(&self) -> bool {
+        true
+    }
+
+    fn case_timeout_s(&self) -> u64 {
+        60
+    }
+
     fn isolate(&self) -> bool {
         true
     }
